@@ -500,7 +500,9 @@ pub fn gen_decl(seed: u64, id: usize, flavour: &'static str) -> Decl {
             let pm = !rich && b.rng.chance(70);
             let e = b.gen_enum(0, &mut taken, rich, pm);
             lifetime |= b.enums[e].lifetime;
-            members.push(GroupMember { ident: format!("M{}", k), member: Member::Enum(e), hidden: false });
+            // any member may be hidden -- all of them, too (then only a catch-all, if any, is visible)
+            let hidden = b.rng.chance(15);
+            members.push(GroupMember { ident: format!("M{}", k), member: Member::Enum(e), hidden });
         }
         if b.rng.chance(40) {
             let hr = rich && b.rng.chance(50);
@@ -512,6 +514,15 @@ pub fn gen_decl(seed: u64, id: usize, flavour: &'static str) -> Decl {
         if b.rng.chance(35) {
             lifetime = true;
             members.push(GroupMember { ident: "Other".into(), member: Member::Raw, hidden: false });
+        }
+        // the derive does not compile for a group without any visible member: keep one (a catch-all will do)
+        if members.iter().all(|m| m.hidden) {
+            if b.rng.chance(60) {
+                lifetime = true;
+                members.push(GroupMember { ident: "Other".into(), member: Member::Raw, hidden: false });
+            } else {
+                members[0].hidden = false;
+            }
         }
         Top::Group(GroupSpec { ident: format!("G{}", id), lifetime, members })
     } else {
